@@ -6,13 +6,14 @@
     (Props/C07/Planar.lean, Props/C07/Toric.lean), hence `mwpm_split_planar'`, `mwpm_split_toric'`,
     `mwpm_split_planar_syndrome'`: the split of the MWPM recovery into a primal/X and a dual/Z half with no
     hypothesis other than the size constraint of the constructor;
-  * `DistHyp S L n (min R C)` for the planar, toric, rotated planar and rotated toric codes from C08's
-    `planar_isDistance`, `toric_isDistance`, `rotatedplanar_isDistance`, `rotatedtoric_isDistance`
+  * `DistHyp S L n (min R C)` for the planar, toric, rotated planar and rotated toric codes, and `DistHyp S L n L`
+    for the colour 6.6.6 code, from C08's `planar_isDistance`, `toric_isDistance`, `rotatedplanar_isDistance`,
+    `rotatedtoric_isDistance`, `color666_isDistance`
     (`distHyp_of_isDistance` is the generic bridge: the lower-bound half of `IsDistance` IS `DistHyp`);
-  * hence `naive_corrects_*`: on every code of these four families that passes the decoder's `max_qubits` guard
+  * hence `naive_corrects_*`: on every code of these five families that passes the decoder's `max_qubits` guard
     (`max_qubits` falsy, or n ≤ max_qubits; default 10: planar 2×2, 2×3, 3×2, rotated planar 3×3, toric 2×2,
-    rotated toric 2×2, 2×4, 4×2) the naive decoder returns a recovery and corrects every error of TOTAL weight
-    ≤ ⌊(min R C − 1)/2⌋.  (For exactly these sizes t = ⌊(d−1)/2⌋ ∈ {0, 1}; the theorems are nevertheless stated
+    rotated toric 2×2, 2×4, 4×2, colour 3) the naive decoder returns a recovery and corrects every error of TOTAL weight
+    ≤ ⌊(d − 1)/2⌋.  (For exactly these sizes t = ⌊(d−1)/2⌋ ∈ {0, 1}; the theorems are nevertheless stated
     and proved for every size and every `max_qubits`, since `max_qubits` is a constructor argument.)
   (`naive_corrects_of_isDistance` = `naive_corrects_partial` + `naive_guard` of Props/C14.lean with `DistHyp`
   discharged.)
@@ -113,6 +114,11 @@ theorem rotatedtoric_distHyp (R C : Int) (hR : 2 ≤ R) (hC : 2 ≤ C) (hRe : R 
       (RotatedToric.nQubits R C).toNat (min R C).toNat :=
   distHyp_of_isDistance _ _ _ _ (C08.rotatedtoric_isDistance R C hR hC hRe hCe).1
 
+theorem color666_distHyp (L : Int) (hL : 3 ≤ L) (hodd : L % 2 = 1) :
+    DistHyp (Color666.stabilizers L) [Color666.logicalX L, Color666.logicalZ L] (Color666.nQubits L).toNat
+      L.toNat :=
+  distHyp_of_isDistance _ _ _ _ (C08.color666_isDistance L hL hodd).1
+
 /-! ### the naive decoder on the lattice codes -/
 
 /-- generic: for a code with C08's `IsDistance … d` (d ≥ 1) whose size passes the `max_qubits` guard, the naive
@@ -171,6 +177,15 @@ theorem naive_corrects_rotatedtoric (R C : Int) (hR : 2 ≤ R) (hC : 2 ≤ C) (h
         = true :=
   naive_corrects_of_isDistance _ _ _ _ (C07.RotatedToric.rtoric_valid R C ⟨hR, hC, hRe, hCe⟩).len_S
     (C08.rotatedtoric_isDistance R C hR hC hRe hCe).1 (by show 1 ≤ (min R C).toNat; omega) mq hmq e he hw
+
+theorem naive_corrects_color666 (L : Int) (hL : 3 ≤ L) (hodd : L % 2 = 1) (mq : Option Nat)
+    (hmq : ∀ m, mq = some m → m = 0 ∨ (Color666.nQubits L).toNat ≤ m)
+    (e : BVec) (he : e.length = 2 * (Color666.nQubits L).toNat) (hw : bsfWt e ≤ (L.toNat - 1) / 2) :
+    ∃ r, naiveDecoderDecode mq (Color666.stabilizers L) (Color666.nQubits L).toNat
+        (synd (Color666.stabilizers L) e) = .ok (some r) ∧ bsfWt r ≤ bsfWt e ∧
+      corrected (Color666.stabilizers L) [Color666.logicalX L, Color666.logicalZ L] e r = true :=
+  naive_corrects_of_isDistance _ _ _ _ (C07.Color666.color666_valid L hL hodd).len_S
+    (C08.color666_isDistance L hL hodd).1 (by show 1 ≤ L.toNat; omega) mq hmq e he hw
 
 /-! ### non-vacuity -/
 
